@@ -185,9 +185,11 @@ class UnitValueValidator:
         classes = list(original_tag.value_classes.keys())
         if not classes:
             return []
-        start_index = original_tag.extension.find(stripped_value) + len(original_tag.org_base_tag) + 1
-
         report_as = report_as if report_as else original_tag
+        # Offsets are reported relative to the tag the issue names.  For a Def/Def-expand value that is the def tag
+        # (e.g. "Def/Name/value"), not the placeholder tag of the definition, whose extension is just "#".
+        start_index = report_as.extension.find(stripped_value) + len(report_as.org_base_tag) + 1
+
         class_valid = {}
         for class_name in classes:
             class_valid[class_name] = self._char_validator.is_valid_value(stripped_value, class_name)
@@ -197,8 +199,7 @@ class UnitValueValidator:
             char_errors[class_name] = self._get_problem_indices(stripped_value, class_name, start_index=start_index)
             if class_valid[class_name] and not char_errors[class_name]:  # We have found a valid class
                 return []
-        index_adj = len(report_as.org_base_tag) - len(original_tag.org_base_tag)
-        validation_issues = self.report_value_errors(char_errors, class_valid, report_as, index_adj)
+        validation_issues = self.report_value_errors(char_errors, class_valid, report_as, 0)
         return validation_issues
 
     @staticmethod
